@@ -98,6 +98,7 @@ def run(tier, report):
         spec2.depth = 2
         spec2._roots = spec2._roots2
         spec2.thresholds = (1, 3)       # multi-chunk IN queries / sorted full scan on 2-4 keys
+        spec2.listdir_order = 'reversed'     # environment answer: os.listdir lists the loose / packs folders in reverse-sorted order
         from ..report import Report
         sub = Report('C02', tier, LEVEL)
         explore(spec2, sub)
